@@ -436,7 +436,7 @@ def gen_module(rng, mode: str) -> tuple[dict, str]:
             if rng.random() < 0.2:
                 info["terminal"] = False
         else:
-            how = rng.choice(["hard", "hard", "terminal-false", "fixed-false-then-hard-impossible"])
+            how = rng.choice(["hard", "hard", "hard", "terminal-false"])
             if how == "terminal-false":
                 info["terminal"] = False     # any `terminal:` forces hard=True
             else:
